@@ -235,7 +235,7 @@ fn corrupt(fen_text: &str, t: &mut Tape) -> (String, &'static str) {
 
 pub fn run(run: &mut Run) -> &'static str {
     // (a)+(b) round trips
-    let cases = run.tier.pick(200_000, 4_000_000);
+    let cases = run.tier.pick(400_000, 4_000_000);
     let strat = (pos_case(4..140), any::<u16>(), any::<u16>()).prop_map(|(pos, clock, number)| RoundTrip { pos, clock, number });
     run.proptest_part("round_trip", RULE, strat, cases, |c: &RoundTrip, st: &mut Stats| {
         // every fifth case uses the dense theme (the longest board fields), with ten-digit counters
@@ -335,7 +335,7 @@ pub fn run(run: &mut Run) -> &'static str {
     });
 
     // (c) systematic corruptions of valid FENs
-    let cases = run.tier.pick(150_000, 3_000_000);
+    let cases = run.tier.pick(300_000, 3_000_000);
     run.proptest_part("corruptions", RULE, pos_case(8..120), cases, |c: &PosCase, st: &mut Stats| {
         let tp_data: Vec<u16> = match c {
             PosCase::Tape(t) => t.iter().rev().copied().collect(),
